@@ -7,6 +7,7 @@ import (
 	"path/filepath"
 	"sort"
 	"strings"
+	"time"
 	"testing"
 
 	intoto "github.com/in-toto/in-toto-golang/in_toto"
@@ -200,6 +201,17 @@ func c10Run(c c10Case, r *hx.Rec) error {
 				return fmt.Errorf("call %d repeat %d with params %v modified the caller's objects:\n before %.600s\n after  %.600s", i, rep, call.Params, before, after)
 			}
 		}
+		if c.Kind == "chain" && i > 0 {
+			// what this process verified before must not matter: a process that has verified nothing yet
+			// gives the same answer for the same files, keys and parameters
+			if accepted, ok := c10Isolated(b.Root, call.Params); ok {
+				r.Label("compared-with-a-fresh-process")
+				if accepted == fresh.Rejected() {
+					return fmt.Errorf("call %d with params %v: %s in this process (after %d earlier calls with other parameters), but a process that verifies the same files first says accepted=%v",
+						i, call.Params, fresh, i, accepted)
+				}
+			}
+		}
 		r.Label("verdict=%v", !fresh.Rejected())
 		pj, _ := json.Marshal(call.Params)
 		key := fmt.Sprintf("%s|%v", pj, call.NoInter)
@@ -217,6 +229,40 @@ func c10Run(c c10Case, r *hx.Rec) error {
 		r.Nontrivial()
 	}
 	return nil
+}
+
+// c10Isolated verifies the materialised world with the given parameters in a process of its own.
+func c10Isolated(root string, params map[string]string) (accepted bool, ok bool) {
+	vp := filepath.Join(root, "verify.json")
+	data, err := os.ReadFile(vp)
+	if err != nil {
+		return false, false
+	}
+	var vf hx.VerifyFile
+	if json.Unmarshal(data, &vf) != nil {
+		return false, false
+	}
+	vf.Params = params
+	nb, _ := json.Marshal(vf)
+	if os.WriteFile(vp, nb, 0o644) != nil {
+		return false, false
+	}
+	defer os.WriteFile(vp, data, 0o644)
+	respPath := filepath.Join(root, "resp-isolated.json")
+	_ = os.Remove(respPath)
+	res := hx.Supervise([]string{"verify", root, respPath}, root, 30*time.Second)
+	if res.TimedOut {
+		return false, false
+	}
+	rd, err := os.ReadFile(respPath)
+	if err != nil {
+		return false, false
+	}
+	var vr hx.VerifyResult
+	if json.Unmarshal(rd, &vr) != nil || !vr.Done {
+		return false, false
+	}
+	return vr.Err == "" && vr.LoadErr == "" && vr.Panic == "", true
 }
 
 // c10Direct: VerifyArtifacts on caller-owned link objects with un-clean artifact names.
@@ -309,9 +355,15 @@ func c10GenChain(t *rapid.T) hx.World {
 	return w
 }
 
+// c10ForceKind restricts the generator to one kind of case (part "direct-calls").
+var c10ForceKind string
+
 func c10Gen(t *rapid.T) c10Case {
 	c := c10Case{Repeats: hx.Pick(4, 16)}
 	c.Kind = rapid.SampledFrom([]string{"chain", "chain", "mixed", "direct", "surplus", "nested"}).Draw(t, "kind")
+	if c10ForceKind != "" {
+		c.Kind = c10ForceKind
+	}
 	switch c.Kind {
 	case "chain":
 		c.World = c10GenChain(t)
@@ -326,6 +378,9 @@ func c10Gen(t *rapid.T) c10Case {
 			{"OTHER": "value"},
 			{"REQ": "{TARGET}", "TARGET": existing},
 			{"REQ": "{Z}", "Z": existing, "A": "{REQ}"},
+			{"REQ": strings.ToUpper(existing), "TARGET": "all", "TAG": "x"},
+			{"REQ": strings.ToUpper(existing[:1]) + existing[1:]},
+			{"REQ": existing, "TARGET": "ALL", "TAG": "X"},
 		}
 		n := rapid.IntRange(1, 4).Draw(t, "ncalls")
 		for i := 0; i < n; i++ {
@@ -455,6 +510,18 @@ func c10Gen(t *rapid.T) c10Case {
 			}
 			dst.Products[rapid.SampledFrom(names).Draw(t, "dstname")] = h("aa")
 		}
+		if rapid.IntRange(0, 2).Draw(t, "twoalgs") == 0 {
+			// digests under several algorithms that agree under one name and differ under another:
+			// such hash objects are different - every time, in whatever order their entries are visited
+			more := func(arts map[string]map[string]string, tail string) {
+				for n, ho := range arts {
+					arts[n] = map[string]string{"sha256": ho["sha256"], "sha512": ho["sha256"] + tail, "blake2b": "0" + tail}
+				}
+			}
+			more(item.Products, "01")
+			more(item.Materials, "02")
+			more(dst.Products, "03")
+		}
 		c.Direct = c03Case{ItemKind: "step", Wrapper: rapid.SampledFrom([]string{"legacy", "dsse"}).Draw(t, "wrapper"),
 			MatRules:  [][]string{{"MATCH", "*", "WITH", "PRODUCTS", "FROM", "dst"}, {"ALLOW", "*"}},
 			ProdRules: [][]string{{"MATCH", "*", "WITH", "PRODUCTS", "FROM", "dst"}, {"DISALLOW", "sub/*"}, {rapid.SampledFrom([]string{"ALLOW", "DISALLOW"}).Draw(t, "closing"), "*"}},
@@ -485,5 +552,20 @@ func TestC10(t *testing.T) {
 		Rule:  "histories of 1-4 verifications on the SAME loaded layout object, key map and parameter maps, each repeated 4x (thorough 16x) and compared with a freshly loaded copy: (chain) generated accepting chains whose verdict depends on the parameter dictionary, with equal and different dictionaries; (mixed) steps mixing key- and certificate-authorised links with thresholds at the edge; (direct) VerifyArtifacts on caller-owned links with un-clean artifact names; caller-owned objects are serialised before and after every call; non-trivial = >=2 calls with a non-empty dictionary or a mixed population, or a direct case; distinct by case JSON",
 		Cases: hx.Pick(200, 15000),
 		Gen:   c10Gen, Run: c10Run,
+	}.Execute(t)
+	if t.Failed() {
+		return
+	}
+	// the cheap kind on its own, in numbers: rule verification on in-memory links, repeated
+	hx.Check[c10Case]{
+		Property: "C10", Part: "direct-calls",
+		Rule:  "VerifyArtifacts called 12x (thorough 32x) on the same caller-owned link objects: artifacts under several spellings of one path, digests under one or three algorithm names that agree under one name and differ under the others between item, materials and MATCH destination; every repetition must give the first verdict and leave the objects as they were; every case is non-trivial; distinct by case JSON",
+		Cases: hx.Pick(1500, 150000),
+		Gen: func(t *rapid.T) c10Case {
+			c10ForceKind = "direct"
+			defer func() { c10ForceKind = "" }()
+			return c10Gen(t)
+		},
+		Run: c10Run,
 	}.Execute(t)
 }
